@@ -69,7 +69,8 @@ error for triage.  (R3) wrong-typed / fractional parameters: either refusal or e
 reaches the seam counts as the number it stands for).  (R4) the switch-on of a software-timed pulse is an `enable`
 whose hold field carries the *pulse* power for the pulse time: it is judged against max_pulse_power, not against
 max_hold_power.  (R5) in the instant a template default_pulse_ms is re-evaluated a parameterless request may be judged
-with the old or the new default.  A parameterless pulse stands for the default in force when it was requested (also
+with the old or the new default ("instant" = within the loop's clock resolution of 1 ns: timers that close run in
+one batch before the queued re-evaluation).  A parameterless pulse stands for the default in force when it was requested (also
 when the PSU defers it and the default changes meanwhile).
 Refusal inside an event handler / task kills MPF (MpfCrashed): for a request that may be refused this is the
 expected refusal-by-exception and ends the run; any other crash is a harness error.
@@ -571,6 +572,12 @@ class Monitor:
     def now(self):
         return self.sim.loop.time() if self.sim is not None else 0.0
 
+    def same_instant(self, t):
+        """Is `t` the instant the loop is processing right now?  Timers due within the loop's clock resolution
+        (1 ns, as in asyncio) run in the same iteration batch, before callbacks queued by earlier ones of the
+        batch (here: the hops that re-evaluate a template default); the clock reads their own deadline then."""
+        return self.now() - t <= self.sim.loop._clock_resolution
+
     def on(self, coil):
         hw = self.sim.hw
         for num, d in hw.sim_drivers.items():
@@ -594,7 +601,7 @@ class Monitor:
         if env is None:
             req = {"kind": kind, "coil": coil, "a": a, "cls": "open", "why": ["unknown_coil"], "safe": []}
         else:
-            if "default_pulse_ms_old" in env and self.now() > env["default_changed_at"]:
+            if "default_pulse_ms_old" in env and not self.same_instant(env["default_changed_at"]):
                 del env["default_pulse_ms_old"]
             cls, why, safe = judge(kind, env, self.mpf_default, a)
             if "default_pulse_ms_old" in env and a.get("pulse_ms") is None and kind != "disable":
@@ -1081,7 +1088,7 @@ def execute(ctx, plan):
             sim.hit_switch(op["switch"], op["state"])
         elif kind == "setvar":
             env = mon.envs["c_b"]
-            if "default_pulse_ms_old" in env and now > env["default_changed_at"]:
+            if "default_pulse_ms_old" in env and not mon.same_instant(env["default_changed_at"]):
                 del env["default_pulse_ms_old"]
             env["default_pulse_ms_old"] = env.get("default_pulse_ms_old", []) + [env["default_pulse_ms"]]
             env["default_pulse_ms"] = op["value"]
